@@ -371,6 +371,13 @@ def rule_live(env, shared):
                     if tt["k"] == "switch" and tt["discr"]["k"] in ("copy", "move") and not tt["discr"]["place"]["p"] \
                             and tt["discr"]["place"]["l"] in aliases:
                         used_ok = True
+            # or compared with a variant (`if self.wait_for_turn(i) == Turn::Over { return None }`): branched on through ==
+            if dl is not None and not used_ok:
+                from guards import _referent_local
+                for bj, t2, c2 in b.calls():
+                    if not c2.indirect and c2.trait == "std::cmp::PartialEq" and c2.name in ("eq", "ne") \
+                            and any(_referent_local(b, a) == dl for a in t2["args"]):
+                        used_ok = True
             # or returned as is (forwarding adaptors)
             if dl == 0:
                 used_ok = True
